@@ -113,8 +113,9 @@ ExportRow(chain) ==
    cases |-> [i \in DOMAIN ExportVals |->
                 LET v == ExportVals[i] IN
                 IF Determinate(chain, v)
-                THEN [det |-> TRUE, on |-> PrintText(TRUE, chain, v), off |-> PrintText(FALSE, chain, v)]
-                ELSE [det |-> FALSE, on |-> "", off |-> ""]]]
+                THEN [det |-> TRUE, kind |-> ChainKind(chain, v),
+                      on |-> PrintText(TRUE, chain, v), off |-> PrintText(FALSE, chain, v)]
+                ELSE [det |-> FALSE, kind |-> "contract", on |-> "", off |-> ""]]]
 
 Export ==
   kase.m = "export" =>
